@@ -93,10 +93,35 @@ def c13(seed):
         if np.abs(back-p[:3]).max()>1e-7: issues.append(('C13 reverse',seed,i,k,back.tolist()))
     return issues
 
+def c13ctx(seed):
+    """transform context managers must restore the exact mapping and stack, also when the body raises"""
+    from gscrib import GCodeCore
+    rnd=random.Random(seed); issues=[]
+    g=GCodeCore(output=None); t=g.transform
+    for _ in range(rnd.randint(0,3)): rand_transform(rnd,t)
+    t.save_state(); rand_transform(rnd,t); t.save_state("n"); rand_transform(rnd,t)
+    probe=Point(1.5,-2.0,0.5)
+    def sig(): return (tuple(np.round(np.array(t.apply_transform(probe),dtype=float),9)), len(t._transforms_stack), tuple(tuple(np.round(np.array(x.apply(probe),dtype=float),9)) for x in t._transforms_stack))
+    named_before=tuple(np.round(np.array(t._named_transforms["n"].apply(probe),dtype=float),9))
+    before=sig()
+    kind=rnd.choice(['current','named']); boom=rnd.random()<0.5
+    try:
+        ctx = g.current_transform() if kind=='current' else g.named_transform("n")
+        with ctx:
+            for _ in range(rnd.randint(1,3)): rand_transform(rnd,t)
+            if rnd.random()<0.5: t.save_state()
+            if rnd.random()<0.5 and t._transforms_stack: t.restore_state(); rand_transform(rnd,t)
+            if boom: raise RuntimeError("body failed")
+    except RuntimeError: pass
+    if sig()!=before: issues.append(('C13 context did not restore ('+kind+(', raised' if boom else '')+')',seed))
+    named_after=tuple(np.round(np.array(t._named_transforms["n"].apply(probe),dtype=float),9))
+    if named_after!=named_before: issues.append(('C13 named state changed by context ('+kind+')',seed))
+    return issues
+
 if __name__=="__main__":
     from collections import Counter
     N=int(sys.argv[1]) if len(sys.argv)>1 else 400
-    for name,f in (('C04',c04),('C13',c13)):
+    for name,f in (('C04',c04),('C13',c13),('C13ctx',c13ctx)):
         cnt=Counter(); ex={}
         for s in range(N):
             for iss in f(s): cnt[iss[0]]+=1; ex.setdefault(iss[0],iss)
